@@ -204,7 +204,7 @@ def deep_and_long(rng, tier):
             # the same, one closer short / one too many: rejected
             out.append(("if true {" + eol) * d + "keep;" + eol + ("}" + eol) * (d - 1))
             out.append("if " + "anyof (" * d + "true" + ")" * (d + 1) + " { stop; }" + eol)
-    for n in ([257, 258, 300, 1000] if tier == "quick" else [2, 16, 255, 256, 257, 258, 259, 300, 1000, 5000]):
+    for n in ([257, 258, 300, 1000] if tier == "quick" else [2, 16, 255, 256, 257, 258, 259, 300, 1000]):
         out.append("if anyof (" + ", ".join(["true", "false", 'exists "a"'][k % 3] for k in range(n)) + ") { stop; }\n")
         out.append("if allof (not anyof (" + ", ".join("true" for k in range(n)) + "), false) { keep; }\n")
         out.append("redirect [" + ", ".join('"a%d"' % (k % 7) for k in range(n)) + "];\n")      # a list where a single string is wanted: rejected
